@@ -119,6 +119,7 @@ func init() {
 				}
 			}()
 		}
+		t0 := time.Now()
 		startcmd := S(op, "startcmd")
 		if startcmd != "feed" {
 			startcmd = "open"
@@ -171,19 +172,34 @@ func init() {
 				break waiting
 			}
 		}
+		tKeys := time.Since(t0)
 		stacks := ""
 		if stuck {
 			buf := make([]byte, 1<<20)
 			buf = buf[:runtime.Stack(buf, true)]
-			if len(buf) > 24000 {
-				buf = buf[:24000]
+			if len(buf) > 40000 {
+				buf = buf[:40000]
 			}
 			stacks = string(buf)
 		}
+		/* the pollers stop first: three of them calling SetWidthHeight every few hundred
+		   microseconds keep the mutex handed from one to the next, and a TryLock between them
+		   never wins (the program's own poller runs every 25 ms) */
+		close(stop)
+		if !stuck {
+			/* behind a mutex that is never released the pollers wait for ever too */
+			pollersDone := make(chan struct{})
+			go func() { pollers.Wait(); close(pollersDone) }()
+			select {
+			case <-pollersDone:
+			case <-time.After(75 * time.Second):
+				stuck = true
+			}
+		}
 		if !stuck {
 			/* never waits for the mutex itself: a goroutine that went away with it must show as
-			   a stuck interface, not hang the harness */
-			/* a loader may keep the mutex while a slow server answers: that ends with the timeout */
+			   a stuck interface, not hang the harness.  A loader may keep the mutex while a slow
+			   server answers: that ends with the timeout */
 			deadline := time.Now().Add(75 * time.Second)
 			for {
 				if settled, _, free := s.VerifTrySettledHookHeld(); free && settled {
@@ -198,18 +214,17 @@ func init() {
 				time.Sleep(2 * time.Millisecond)
 			}
 		}
-		close(stop)
-		if !stuck {
-			/* behind a mutex that is never released the pollers wait for ever too */
-			pollersDone := make(chan struct{})
-			go func() { pollers.Wait(); close(pollersDone) }()
-			select {
-			case <-pollersDone:
-			case <-time.After(75 * time.Second):
-				stuck = true
-			}
-		}
+		tSettle := time.Since(t0)
 		sm.takeLog()
+		if stuck && stacks == "" {
+			buf := make([]byte, 1<<20)
+			buf = buf[:runtime.Stack(buf, true)]
+			if len(buf) > 40000 {
+				buf = buf[:40000]
+			}
+			stacks = string(buf)
+		}
+		op["phases_ms"] = []any{tKeys.Milliseconds(), tSettle.Milliseconds(), time.Since(t0).Milliseconds()}
 		out := map[string]any{"overlaps": atomic.LoadInt64(&overlaps), "stuck": stuck, "badheights": atomic.LoadInt64(&badHeights), "frames_emitted": atomic.LoadInt64(&frames) > 0}
 		if stacks != "" {
 			/* where everything was when nothing moved any more */
